@@ -27,6 +27,8 @@ META = {
     "bounds": ["frame width 1..64 (quick: 1..24)", "indices -2..width+2",
                "written values -2..2^(width+1)", "bit-vector width of the encoding 128",
                "one operation per path from an arbitrary valid state (inductive step)",
+               "three-step histories read-views / write / read-views / write / read-views, width <= 12 "
+               "(thorough 40): hidden state such as cached views is covered",
                "byte-sequence constructor: up to 9 bytes", "pack_len(l): l in 0..10"],
     "stubs": ["builtins isinstance/int/bytes shims (accept SymInt)",
               "int.to_bytes / int.from_bytes / int.bit_length modelled by symx"],
@@ -296,6 +298,69 @@ def h_pack_len(ctx, B):
     return "len%d" % len(r)
 
 
+# --- two-step histories: every view read before a write must be fresh after it -----------------
+
+def _views_match(ctx, f, n, d, what):
+    """pack / as_byte_sequence / pack_len / as_integer / str all show the number d."""
+    p = f.pack
+    acc = 0
+    for y in p:
+        acc = (acc << 8) | y
+    ctx.prove(E.and_(len(p) == (n + 7) // 8, E.eq(acc, d)), what + ": pack is stale or wrong", key=what + "/pack")
+    seq = f.as_byte_sequence
+    acc = 0
+    for y in seq:
+        acc = (acc << 8) | y
+    ctx.prove(E.eq(acc, d), what + ": as_byte_sequence is stale or wrong", key=what + "/seq")
+    pl = f.pack_len(9)
+    acc = 0
+    for y in pl:
+        acc = (acc << 8) | y
+    ctx.prove(E.eq(acc, d), what + ": pack_len is stale or wrong", key=what + "/pack_len")
+    ctx.prove(E.eq(f.as_integer, d), what + ": as_integer wrong", key=what + "/as_integer")
+    ctx.prove(F.Frame(n, p) == f, what + ": frame rebuilt from pack differs", key=what + "/rebuild")
+    st, s = call(str, f)
+    ctx.prove(st == "ok", what + ": str() raised", key=what + "/str")
+
+
+def h_history(ctx, B, op):
+    """read every view, perform one write, read every view again."""
+    b, d = _state(ctx, B)
+    f = _mk(b, d)
+    n = len(f)                                  # forks over the width
+    _views_match(ctx, f, n, d, "history/before")
+    _ = (True in f), (False in f), f == F.Frame(n, 0), f[0]
+    if op == "setbit":
+        i = ctx.fresh("i", 0, B - 1)
+        ctx.assume(E.lt(i, b))
+        v = ctx.fresh_bool("v")
+        f[i] = v
+        want = E.ite(v, d | (1 << i), d & ~(1 << i))
+    elif op == "setslice":
+        x = ctx.fresh("x", 0, B - 1)
+        y = ctx.fresh("y", 0, B - 1)
+        ctx.assume(E.and_(E.lt(x, b), E.le(y, x)))
+        w = x + 1 - y
+        v = ctx.fresh("v", 0, (1 << B) - 1)
+        ctx.assume(E.lt(v, 1 << w))
+        f[x:y] = v
+        want = (d & ~(mask(w) << y)) | (v << y)
+    else:   # a rejected write must not disturb the views either
+        st, r = call(f.__setitem__, slice(0, 0), -1)
+        ctx.prove(st == "exc", "negative slice value accepted", key="history/reject")
+        want = d
+    _views_match(ctx, f, n, want, "history/after-" + op)
+    # and once more after a second write of the opposite kind
+    if op == "setbit":
+        f[0:0] = 1
+        want = want | 1
+    else:
+        f[0] = False
+        want = want & ~1
+    _views_match(ctx, f, n, want, "history/after-second")
+    return "w%d" % n
+
+
 # --- comparison / contains ------------------------------------------------------------
 
 def h_eq(ctx, B):
@@ -403,6 +468,9 @@ def cases(tier):
         Case("backward", h_backward, {}, width=64),
         Case("types", h_types, {}, width=64),
     ]
+    Bh = 12 if tier == "quick" else 40
+    for op in ("setbit", "setslice", "rejected"):
+        cs.append(Case("history-" + op, h_history, {"B": Bh, "op": op}, width=128))
     for n in ([1, 3] if tier == "quick" else [1, 2, 3, 4, 8, 9]):
         cs.append(Case("ctor_bytes%d" % n, h_ctor_bytes, {"B": B, "n": n}, width=128))
     return cs
